@@ -331,6 +331,9 @@ func (ex *Exec) store(st *State, p PtrV, v Value, t types.Type) {
 	if o.readonly && !ex.initMode {
 		ex.check(st, ts.True, "ownership", "store into caller-owned/read-only memory ("+o.tag+")")
 	}
+	if o.frozen && !ex.inAtomic && !trustedForShared(st.top().fn) {
+		ex.check(st, ts.True, "race", "plain store to memory shared between instances ("+o.tag+")")
+	}
 	if o.kind == KBytes {
 		if av, ok := v.(ArrayV); ok {
 			// whole byte-array store (composite literal initialisers)
@@ -363,6 +366,18 @@ func (ex *Exec) store(st *State, p PtrV, v Value, t types.Type) {
 	}
 	c := ex.cellByPath(st, ow, p.Path)
 	ex.cellStore(c, v)
+}
+
+// trustedForShared: packages whose internal synchronisation is trusted (documented thread-safe)
+func trustedForShared(fn *ssa.Function) bool {
+	if fn.Pkg == nil {
+		return false
+	}
+	switch fn.Pkg.Pkg.Path() {
+	case "github.com/bytedance/gopkg/lang/span", "github.com/bytedance/gopkg/lang/mcache", "sync", "sync/atomic":
+		return true
+	}
+	return false
 }
 
 // ---- symbolic element index into small dense arrays of scalar cells: ite instead of forking
